@@ -1,6 +1,7 @@
 SPECIFICATION Spec
 CONSTANTS
-  MaxDim = 4
+  Dims <- DimsThorough
+  MutDim = 9
   BigShapes <- BigThorough
   BigHParts = 2
   BigWParts = 3
